@@ -377,7 +377,7 @@ fn main() {
         ctx.cov("refused", json!({"ntriples": cnt.refused[0].load(Ordering::SeqCst), "turtle": cnt.refused[1].load(Ordering::SeqCst), "rdfxml": cnt.refused[2].load(Ordering::SeqCst)}));
         ctx.cov("single_triples", singles.len() as u64);
         ctx.cov("pairs", firsts.len() as u64 * seconds.len() as u64);
-        ctx.cov("bounds", format!("subjects {:?}; predicates {:?}; objects: IRI, blank b0, literals plain|@en|@en-GB|^^xsd:integer|^^<{CUSTOM_DT}> over every string of <={} tokens of {:?} (+ empty); all single triples; all ordered pairs (structure triple [subject x predicate x {{IRI, blank, \"a\"}}], any triple with lexical forms of <= {} tokens)", SUBJECTS, PREDICATES, if quick { 2 } else { 3 }, TOKENS, if quick { 1 } else { 2 }));
+        ctx.cov("bounds", format!("subjects {:?}; predicates {:?}; objects: IRI, blank b0, literals plain|@en|@en-GB|^^xsd:integer|^^<{CUSTOM_DT}> over every string of <={} tokens of {:?} (+ empty), plus language tags {LANG_TAGS:?} on the lexical forms of <= 1 token; all single triples; all ordered pairs (structure triple [subject x predicate x {{IRI, blank, \"a\"}}], any triple with lexical forms of <= {} tokens)", SUBJECTS, PREDICATES, if quick { 2 } else { 3 }, TOKENS, if quick { 1 } else { 2 }));
         ctx.sample(witness(&[singles[singles.len() / 3].clone()], RdfFormat::Turtle));
         ctx.sample(witness(&[firsts[40].clone(), seconds[seconds.len() - 7].clone()], RdfFormat::RdfXml));
         ctx.assume("oracle: serialize may return Err (refusal); if it returns text, parse(text) with the same format must be Ok and equal the input as a set of triples up to a bijective renaming of blank nodes; language tags compared case-insensitively; literal = (lexical form, language) or (lexical form, datatype IRI), compared exactly, no value-space normalisation");
